@@ -69,10 +69,24 @@ def build_harness():
             import shutil
             shutil.copy(lock_src, lock_dst)
         tmpl = open(os.path.join(HARNESS, "Cargo.toml.in")).read().replace("@REPO@", REPO)
-        ct = os.path.join(HARNESS, "Cargo.toml")
+        if REPO == "/repo":
+            mdir = HARNESS
+        else:
+            # a separate manifest directory per alternative checkout, so that trials against
+            # scratch worktrees never redirect the default build
+            mdir = os.path.join(WORK, "harness-" + hashlib.sha256(REPO.encode()).hexdigest()[:8])
+            os.makedirs(mdir, exist_ok=True)
+            tmpl += '\n[[bin]]\nname = "verif-harness"\npath = "%s"\n' % os.path.join(HARNESS, "src", "main.rs")
+            import shutil
+            if not os.path.exists(os.path.join(mdir, "Cargo.lock")):
+                shutil.copy(lock_dst, os.path.join(mdir, "Cargo.lock"))
+            cfgd = os.path.join(mdir, ".cargo")
+            os.makedirs(cfgd, exist_ok=True)
+            open(os.path.join(cfgd, "config.toml"), "w").write("[net]\noffline = true\n")
+        ct = os.path.join(mdir, "Cargo.toml")
         if not os.path.exists(ct) or open(ct).read() != tmpl:
             open(ct, "w").write(tmpl)
-        p = sh(["cargo", "build", "--release", "--offline"], cwd=HARNESS, timeout=1800,
+        p = sh(["cargo", "build", "--release", "--offline"], cwd=mdir, timeout=1800,
                env={"RUSTFLAGS": "--cfg miniscript_verif", "CARGO_NET_OFFLINE": "true",
                     "CARGO_TARGET_DIR": _target_dir()})
         if p.returncode != 0:
